@@ -19,14 +19,29 @@
 //! * Two writers (`c<credit>-w2[-a<n>|-x]*`): `poll_write_push` / `poll_obtain_write_permission` take
 //!   `&self` and `MuxStream` is `Sync`, so two threads can poll the write side of one stream at the
 //!   same time in safe code. The hook shares one stream between two writer threads (one poll each, own
-//!   waker each) racing with each other and the actors. The Lean model has a single writer, so these
-//!   scenarios are judged by the independent monitor only (`monitor_shared`): frames and `Ready(Some)`
+//!   waker each) racing with each other and the actors. These scenarios are judged twice.
+//!   (a) By the independent monitor (`monitor_shared`): frames and `Ready(Some)`
 //!   polls never exceed initial credit + grants (no send without a unit), the final counter equals
 //!   initial + grants - takes, frames = takes, and a writer left `Pending` while credit is available or
 //!   the stream is closed has seen a wake-up delivered to the stream's waker slot after its poll began
 //!   (the stream has ONE waker slot, so with two tasks waiting only that is promised: the later
 //!   registration replaces the earlier one). Keys `two-writers:<scenario>:<violation>:<outcome>`; the
-//!   replay carries the order of operation starts / returns of the first execution reaching the outcome.
+//!   replay carries the order of operation starts / returns of the first execution reaching the outcome
+//!   and the model's schedule reaching it (if it has one).
+//!   (b) By correspondence with the Lean model of several writers on one stream (`Model/WakerN`, the
+//!   model of the `…_n` theorems of `Props/C12` and of C03's `one_write_one_credit_under_concurrency`;
+//!   `drv_waker` enumerates its interleavings for `c<credit>-w<n>…` scenarios, with the hook's "poll
+//!   began" instrumentation mirrored): every outcome loom reaches must be an outcome of the model
+//!   (runs with a preemption bound), and the two sets must be equal where loom explores without a bound
+//!   (<= 3 threads), else `FailKind::Model`, key `outcome-set:<scenario>`. An implementation outcome is
+//!   also accepted under the *stale-load rule*: the model (sequentially consistent) has an outcome equal
+//!   in every field but `after` whose `after` is pointwise >= the implementation's. Reason: `after` is
+//!   measured by the hook in real time with counters loom does not see, while under loom's C11 model a
+//!   writer's `Relaxed` / `Acquire` load may still return the value from before a `fetch_add` / `swap`
+//!   that has already run (no happens-before edge to the acknowledger) — the execution is equivalent to
+//!   a sequentially consistent one in which that poll began earlier, where the hook would have counted
+//!   the wake-ups in between as "after". Such outcomes occur from 4 threads on (two actors); they are
+//!   counted (`two-writers:matched-by-stale-load-rule`), never silently dropped: the monitor judges them.
 
 use pvh::{Args, Driver, FailKind, Report, Tier, fnv, json};
 use std::collections::{BTreeMap, BTreeSet};
@@ -152,7 +167,7 @@ fn monitor(sc: &Scenario, o: &Outcome) -> Option<&'static str> {
 }
 
 /// The monitor for a stream polled by `sc.writers` writer threads at once (one poll each).
-/// Independent of the Lean model (which has one writer). `None` = holds.
+/// Independent of the Lean model (the correspondence with `Model/WakerN` is a separate judgement). `None` = holds.
 fn monitor_shared(sc: &Scenario, o: &Outcome) -> Option<&'static str> {
     let n = sc.writers;
     let Some(after) = &o.after else { return Some("malformed") };
@@ -180,6 +195,39 @@ fn monitor_shared(sc: &Scenario, o: &Outcome) -> Option<&'static str> {
     } else {
         None
     }
+}
+
+/// A two-writer outcome without its `after` field, and that field.
+fn split_after(o: &str) -> Option<(String, Vec<u64>)> {
+    let mut rest = vec![];
+    let mut after = None;
+    for kv in o.split(';') {
+        match kv.strip_prefix("after=") {
+            Some(a) => after = Some(parse_list(a).iter().map(|x| x.parse().ok()).collect::<Option<Vec<u64>>>()?),
+            None => rest.push(kv),
+        }
+    }
+    Some((rest.join(";"), after?))
+}
+
+/// How the model accounts for an implementation outcome of a two-writer scenario.
+#[derive(PartialEq, Eq, Debug)]
+enum Covered {
+    Exact,
+    /// equal in every field but `after`, the model's `after` pointwise >= (see the module comment)
+    StaleLoad,
+    No,
+}
+
+fn covered(o: &str, model: &BTreeSet<String>) -> Covered {
+    if model.contains(o) {
+        return Covered::Exact;
+    }
+    let Some((rest, after)) = split_after(o) else { return Covered::No };
+    let dominated = model.iter().filter_map(|m| split_after(m)).any(|(r, a)| {
+        r == rest && a.len() == after.len() && a.iter().zip(&after).all(|(m, i)| m >= i)
+    });
+    if dominated { Covered::StaleLoad } else { Covered::No }
 }
 
 struct LoomRun {
@@ -265,6 +313,8 @@ fn run_loom(scenarios: &[String], max_preemptions: Option<u32>, test_threads: us
 struct Ctx {
     rep: Report,
     drv: Option<Driver>,
+    /// two-writer scenarios: the model's (states, outcome set), asked once per scenario
+    model_sets: BTreeMap<String, Option<(u64, BTreeSet<String>)>>,
 }
 
 impl Ctx {
@@ -279,7 +329,32 @@ impl Ctx {
         json!("the model does not reach this outcome")
     }
 
-    /// Two writer threads on one stream: the independent monitor only (the model has one writer).
+    /// The outcome set of the Lean model for a scenario (`outcomes fixed <name>`), `None` without a
+    /// driver; a malformed answer is reported once.
+    fn model_outcomes(&mut self, name: &str) -> Option<(u64, BTreeSet<String>)> {
+        if let Some(cached) = self.model_sets.get(name) {
+            return cached.clone();
+        }
+        let d = self.drv.as_mut()?;
+        let r = d.ask(&format!("outcomes fixed {name}"));
+        let t: Vec<&str> = r.split_whitespace().collect();
+        let parsed = if t.first() == Some(&"ok") && t.len() >= 2 {
+            Some((t[1].parse().unwrap_or(0), t[2..].iter().map(|s| (*s).to_string()).collect()))
+        } else {
+            self.rep.fail(
+                FailKind::Model,
+                &format!("driver:{name}"),
+                &format!("drv_waker answered `{r}` for scenario {name}"),
+                json!({"scenario": name}),
+            );
+            None
+        };
+        self.model_sets.insert(name.to_string(), parsed.clone());
+        parsed
+    }
+
+    /// Two writer threads on one stream: the independent monitor on every implementation outcome, then
+    /// the correspondence with the Lean model of several writers (`Model/WakerN`).
     #[allow(clippy::too_many_arguments)]
     fn evaluate_shared(
         &mut self,
@@ -291,19 +366,34 @@ impl Ctx {
         max_preemptions: Option<u32>,
         forbidden: &BTreeMap<String, Vec<(String, String)>>,
     ) {
-        self.rep.count("two-writers:scenarios(monitor only, the model has one writer)");
+        self.rep.count("two-writers:scenarios(monitor and model)");
+        let bound = max_preemptions.map_or("unbounded".to_string(), |n| n.to_string());
         for o in imp {
             self.rep.nontrivial.insert(fnv(format!("{name} {o}").as_bytes()));
             for r in o.split(';').next().unwrap_or("").trim_start_matches("res=").split(',') {
                 self.rep.count(&format!("two-writers:poll-result:{r}"));
             }
             let verdict = parse_outcome(o).map_or(Some("malformed"), |p| monitor(sc, &p));
+            if let Some(d) = self.drv.as_mut() {
+                // the Lean monitor (the predicate of the `_n` theorems on a final outcome) must agree
+                let m = d.ask(&format!("monitor {name} {o}"));
+                let mine = verdict.unwrap_or("ok");
+                if m != mine && !(mine == "closed-flag" && m == "ok") {
+                    self.rep.fail(
+                        FailKind::Model,
+                        &format!("monitor:{name}:{o}"),
+                        &format!("the Lean monitor says `{m}`, the harness monitor `{mine}` on outcome {o} of {name}"),
+                        json!({"scenario": name, "outcome": o}),
+                    );
+                }
+            }
             let listed = forbidden.get(name).and_then(|v| v.iter().find(|(f, _)| f == o));
             if verdict.is_none() && listed.is_none() {
                 continue;
             }
             let what = verdict.unwrap_or("corpus-forbidden");
             let schedule = run.schedules.get(&(name.to_string(), o.clone())).cloned();
+            let model_schedule = self.model_schedule(name, o);
             let grants: u64 = sc.actors.iter().flatten().sum();
             let desc = match what {
                 "no-credit" => format!(
@@ -326,7 +416,7 @@ impl Ctx {
                 &desc,
                 json!({
                     "scenario": name, "outcome": o, "violation": what, "max_preemptions": max_preemptions,
-                    "model_schedule": "the model has one writer; judged by the conservation / wake-up monitor only",
+                    "model_schedule": model_schedule,
                     "schedule": schedule,
                     "schedule_legend": "order of operation starts and returns in the first loom execution reaching the outcome: w<i>+ / w<i>=<S|P|N> writer i calls / returns from poll_write_push, a<n>#<j>+ / . acknowledge(n) begins / has returned, x#<j> disallow_write; a start is recorded before the operation's first atomic step, a return after its last",
                     "corpus": listed.map(|(_, f)| f.clone()),
@@ -334,7 +424,51 @@ impl Ctx {
                 }),
             );
         }
-        self.rep.sample(json!({"scenario": name, "loom_executions": execs, "outcomes_impl": imp.len(), "judged_by": "monitor only"}));
+        // correspondence with the model of several writers on one stream
+        let Some((states, model)) = self.model_outcomes(name) else {
+            self.rep.sample(json!({"scenario": name, "loom_executions": execs, "outcomes_impl": imp.len(), "judged_by": "monitor only (no driver)"}));
+            return;
+        };
+        self.rep.count_n("model-states", states);
+        self.rep.model_compared += model.union(imp).count() as u64;
+        let mut impl_only = vec![];
+        let mut stale = vec![];
+        for o in imp {
+            match covered(o, &model) {
+                Covered::Exact => {}
+                Covered::StaleLoad => stale.push(o.clone()),
+                Covered::No => impl_only.push(o.clone()),
+            }
+        }
+        self.rep.count_n("two-writers:matched-by-stale-load-rule", stale.len() as u64);
+        let model_only: Vec<String> = model.difference(imp).cloned().collect();
+        // without a preemption bound loom's exploration is complete: the sets must be equal;
+        // with a bound loom may miss outcomes, so only "implementation within model" is required
+        let exact_required = max_preemptions.is_none();
+        if !exact_required {
+            self.rep.count_n("two-writers:model-outcomes-not-reached-within-preemption-bound", model_only.len() as u64);
+        }
+        if !impl_only.is_empty() || (exact_required && (!model_only.is_empty() || !stale.is_empty())) {
+            self.rep.fail(
+                FailKind::Model,
+                &format!("outcome-set:{name}"),
+                &format!(
+                    "outcome sets differ for two-writer scenario {name} (loom preemption bound: {bound}): the implementation reaches \
+                     {impl_only:?}, which the model of several writers on one stream (Model/WakerN) does not{}",
+                    if exact_required {
+                        format!("; only in the model {model_only:?}; matched only by the stale-load rule {stale:?} (exact equality is required without a preemption bound)")
+                    } else {
+                        String::new()
+                    }
+                ),
+                json!({"scenario": name, "model_only": model_only, "impl_only": impl_only, "stale_load_rule": stale, "max_preemptions": max_preemptions}),
+            );
+        }
+        self.rep.sample(json!({
+            "scenario": name, "loom_executions": execs, "preemption_bound": bound, "outcomes_impl": imp.len(),
+            "outcomes_model": model.len(), "model_states": states, "matched_by_stale_load_rule": stale.len(),
+            "model_outcomes_not_reached": model_only.len(), "judged_by": "monitor and model (Model/WakerN)",
+        }));
     }
 
     /// Monitor + correspondence for one group of scenarios that was run with one loom setting.
@@ -532,11 +666,14 @@ poll_obtain_write_permission with the real acknowledge / disallow_write on other
 (poll results, credit, wakes per poll, closed, frames) that the monitor judges; evaluations = loom executions; \
 every scenario has at least one racing thread, so all are non-trivial; distinct = distinct (scenario, outcome) pairs; \
 the c<n>-w2-* scenarios share one stream between two writer threads (poll_write_push takes &self) and are judged by the \
-monitor only: takes and frames never exceed initial credit + grants, final credit = initial + grants - takes, and a \
-Pending writer that could proceed or should fail has seen a wake-up reach the stream's single waker slot";
+monitor (takes and frames never exceed initial credit + grants, final credit = initial + grants - takes, and a \
+Pending writer that could proceed or should fail has seen a wake-up reach the stream's single waker slot) and by \
+correspondence with the Lean model of several writers on one stream (Model/WakerN): loom's outcome set is within the \
+model's (equal without preemption bound), an `after` smaller than the model's being accepted as a stale load under C11";
     let mut cx = Ctx {
         rep: Report::new("waker", &args, rule),
         drv: args.driver.as_deref().map(|p| Driver::spawn(p, &[]).expect("start Lean driver")),
+        model_sets: BTreeMap::new(),
     };
     let forbidden = read_corpus(args.corpus.as_deref());
     // Scenarios with at most 3 threads (the writer and one or two of {acknowledge, close} — the
